@@ -18,6 +18,7 @@ import (
 )
 
 type replayTemplate struct {
+	fixed bool // a fixed history that needs no value from the solver: may run whatever the solver's answer was
 	name  string
 	match func(o *Obligation) bool
 	run   func(g *Gen, o *Obligation, model map[string]string) (bool, string)
@@ -30,6 +31,7 @@ var repoDir = "/repo"
 
 var replayTemplates = []*replayTemplate{
 	{
+		fixed: true,
 		name: "ws_handler_after_close.go.tmpl",
 		match: func(o *Obligation) bool {
 			return o.Kind == "site" && o.Func == "(*transport/ws.listener).handler" && strings.Contains(o.Note, "!l.closed")
